@@ -130,7 +130,7 @@ fn c18_ssh_2_0_free9() {
 
 //# harness: c01_ssh_2_0_warn
 //# props: C01 C18
-//# tier: thorough
+//# tier: extended
 //# encodes: proto::ssh::repl, proto::ssh::ssh_parse
 //# bounds: identification = "SSH-2.0" (the dispatcher's signature) + 5 arbitrary bytes (version continuation, '-', software, SP, comment, lone CR, CR LF, bare LF, NUL, non-ASCII); log level Warn
 //# assumes: empty software names are not judged (the property's grammar does not settle them)
